@@ -37,7 +37,7 @@ def mono(e, shape):
 def mk(a, backend, real_t):
     if backend == "exact":
         return shim.frac_array(a)
-    return np.array(a, dtype=real_t)
+    return kernels.operand(a, real_t)
 
 
 def filt1_kernels(real_t):
